@@ -2,7 +2,7 @@
 """tools/dumpvc.py <qualname> <substring of obligation name> [variant] -> writes /tmp/vc_<n>.smt2"""
 import sys; sys.path.insert(0,'/verif')
 import z3
-from pyvc import frontend, contracts, verify, solve, ext_numpy, ext_pandas
+from pyvc import frontend, contracts, verify, solve, allext
 repo=frontend.Repo(); reg=contracts.Registry(); reg.load_dir('/verif/contracts')
 q, pat = sys.argv[1], sys.argv[2]
 var = int(sys.argv[3]) if len(sys.argv)>3 else None
